@@ -42,6 +42,9 @@ func dispatchMore(cmd string, args []string) bool {
 	case "filerender":
 		cmdFileRender(args)
 		return true
+	case "listobs":
+		cmdListObs(args)
+		return true
 	case "campaign":
 		cmdCampaign(args)
 		return true
